@@ -32,7 +32,9 @@ Vias == {"direct", "cross", "helper", "run"}
 ColonKeys == {"colon", "lcolon", "tcolon", "otherrealmcolon", "modauth", "modvm", "modbank", "modnode", "metacolon"}
 KeyHasColon(k) == k \in ColonKeys
 KeyEmpty(k) == k = "empty"
-Callers == {"sys", "evil"}
+\* who calls sys/params: the designated realm gno.land/r/sys/params (control), an ordinary realm that
+\* imports sys/params, a /p/ helper importing sys/params called by an ordinary realm, a MsgRun script
+Callers == {"sys", "evil", "helper", "run"}
 
 \* module parameter candidates: id -> what the keepers must do with them
 \*   ok       : accepted when the value is valid
@@ -44,26 +46,29 @@ ModOK == {"auth_memo", "auth_siglimit", "vm_deposit", "vm_price", "bank_denoms",
 ModVals == {"good1", "good2", "bad", "wrongtype"}
 ValidVal(v) == v \in {"good1", "good2"}
 
-VARIABLES user,    \* [NS -> [Keys -> value record or NONE]]
+VARIABLES denoms,  \* bank:p:restricted_denoms as a set (subset of {"good1","good2"}): written by
+                   \* SetSysParamStrings and incrementally by UpdateSysParamStrings(add / remove)
+          user,    \* [NS -> [Keys -> value record or NONE]]
           mod,     \* [ModOK -> "default" | "good1" | "good2"]
           meta,    \* subset of NS
           last,    \* the step just taken (for the action properties)
           steps, hist
 
-vars == <<user, mod, meta>>
+vars == <<user, mod, meta, denoms>>
 NONE == [t |-> "none"]
 \* a stored value: type tag + abstract content ("v1"/"v2" or a set of strings for list values)
 Val(t, c) == [t |-> t, c |-> c]
 
 Init == /\ user = [n \in NS |-> [k \in Keys |-> NONE]]
         /\ mod = [m \in ModOK |-> "default"]
-        /\ meta = {}
+        /\ meta = {} /\ denoms = {}
         /\ last = [act |-> "Init"]
         /\ steps = 0 /\ hist = <<>>
 
 \* projection: only the keys that exist (the driver treats every other candidate as absent)
-Proj(u, m, mt) == [user |-> {r \in {[ns |-> n, k |-> k, val |-> u[n][k]] : n \in NS, k \in Keys} : r.val # NONE},
+ProjD(u, m, mt, dn) == [denoms |-> dn, user |-> {r \in {[ns |-> n, k |-> k, val |-> u[n][k]] : n \in NS, k \in Keys} : r.val # NONE},
                    mod |-> m, meta |-> mt]
+Proj(u, m, mt) == ProjD(u, m, mt, denoms)
 
 Log(rec, st) ==
   /\ steps' = steps + 1
@@ -101,17 +106,38 @@ UserSet(via, ns, kind, k, v) ==
         ELSE LET u1 == [user EXCEPT ![ns][k] = nv]
                  \* the accounting key appears with the realm's first stored byte and stays
                  mt1 == IF nv # NONE \/ old # NONE THEN meta \cup {ns} ELSE meta
-             IN /\ user' = u1 /\ meta' = mt1 /\ UNCHANGED mod
+             IN /\ user' = u1 /\ meta' = mt1 /\ UNCHANGED <<mod, denoms>>
                 /\ Log(rec("ok"), Proj(u1, mod, mt1))
 
 SysSet(caller, mk, v) ==
   /\ steps < MaxLen
   /\ LET rec(reply) == [act |-> "SysSet", caller |-> caller, mk |-> mk, v |-> v, reply |-> reply]
      IN IF caller = "sys" /\ mk \in ModOK /\ ValidVal(v)
-        THEN LET m1 == [mod EXCEPT ![mk] = v] IN
-             /\ mod' = m1 /\ UNCHANGED <<user, meta>>
-             /\ Log(rec("ok"), Proj(user, m1, meta))
+        THEN IF mk = "bank_denoms"
+             THEN /\ denoms' = {v} /\ UNCHANGED <<user, mod, meta>>
+                  /\ Log(rec("ok"), ProjD(user, mod, meta, {v}))
+             ELSE LET m1 == [mod EXCEPT ![mk] = v] IN
+                  /\ mod' = m1 /\ UNCHANGED <<user, meta, denoms>>
+                  /\ Log(rec("ok"), Proj(user, m1, meta))
         ELSE UNCHANGED vars /\ Log(rec("reject"), Proj(user, mod, meta))
+
+\* sys/params.UpdateSysParamStrings("bank", "p", "restricted_denoms", {d}, add): incremental edit of
+\* a module string list; like every sys/params entry point it is reserved to gno.land/r/sys/params.
+SysUpd(caller, op, d) ==
+  /\ steps < MaxLen
+  /\ LET rec(reply) == [act |-> "SysUpd", caller |-> caller, op |-> op, d |-> d, reply |-> reply]
+     IN IF caller = "sys"
+        THEN LET dn == IF op = "add" THEN denoms \cup {d} ELSE denoms \ {d} IN
+             /\ denoms' = dn /\ UNCHANGED <<user, mod, meta>>
+             /\ Log(rec("ok"), ProjD(user, mod, meta, dn))
+        ELSE UNCHANGED vars /\ Log(rec("reject"), Proj(user, mod, meta))
+
+\* the remaining exported setters (Bool, Uint64, Bytes) called from outside the designated realm on a
+\* key the node module would accept without validation: refused, nothing changes
+SysProbe(caller, fn) ==
+  /\ steps < MaxLen /\ caller # "sys"
+  /\ UNCHANGED vars
+  /\ Log([act |-> "SysProbe", caller |-> caller, fn |-> fn, reply |-> "reject"], Proj(user, mod, meta))
 
 \* Exhaustive exploration uses a pruned alphabet (every key class with one setter, every setter
 \* with two key classes, every route with three key classes; the second caller with two module
@@ -121,7 +147,11 @@ Next == \/ \E via \in {"direct", "run"}, ns \in NS, k \in Keys : UserSet(via, ns
         \/ \E via \in {"cross", "helper"}, ns \in NS, k \in {"plain", "colon", "otherrealm"} \cap Keys :
              UserSet(via, ns, "String", k, "v1")
         \/ \E mk \in ModKeys, v \in ModVals : SysSet("sys", mk, v)
-        \/ \E mk \in {"auth_memo", "vm_deposit"} : SysSet("evil", mk, "good1")
+        \/ \E c \in Callers \ {"sys"}, mk \in {"auth_memo", "vm_deposit", "bank_denoms"} : steps = 0 /\ SysSet(c, mk, "good1")
+        \/ \E c \in Callers \ {"sys"}, fn \in {"Bool", "Uint64", "Bytes"} : steps = 0 /\ SysProbe(c, fn)
+        \/ \E op \in {"add", "del"}, d \in {"good1", "good2"} : SysUpd("sys", op, d)
+        \/ \E c \in Callers \ {"sys"}, op \in {"add", "del"}, d \in {"good1", "good2"} :
+             (steps = 0 \/ denoms # {}) /\ d = "good1" /\ SysUpd(c, op, d)
 
 Pick(S) == RandomElement({x \in S : steps >= 0})
 SimNext == \/ UserSet(Pick(Vias), Pick(NS), Pick(Kinds), Pick(Keys), Pick({"v1", "v2"}))
@@ -132,21 +162,24 @@ SimNext == \/ UserSet(Pick(Vias), Pick(NS), Pick(Kinds), Pick(Keys), Pick({"v1",
            \/ UserSet("helper", Pick({"a", "b", "asub"}), Pick(Kinds), Pick(Keys), Pick({"v1", "v2"}))
            \/ SysSet(Pick(Callers), Pick(ModKeys), Pick(ModVals))
            \/ SysSet("sys", Pick(ModOK), Pick(ModVals))
+           \/ SysUpd(Pick(Callers), Pick({"add", "del"}), Pick({"good1", "good2"}))
+           \/ SysUpd("sys", Pick({"add", "del"}), Pick({"good1", "good2"}))
+           \/ SysProbe(Pick(Callers \ {"sys"}), Pick({"Bool", "Uint64", "Bytes"}))
 
 Spec == Init /\ [][Next]_<<vars, last, steps, hist>>
 View == vars
 
 \* ------------------------------------------------------------------ properties (C13)
-TypeOK == /\ meta \subseteq NS
+TypeOK == /\ meta \subseteq NS /\ denoms \subseteq {"good1", "good2"}
           /\ \A m \in ModOK : mod[m] \in {"default", "good1", "good2"}
 \* a realm's writes land in that realm's own namespace and nowhere else
 WritesStayInOwnNamespaceA ==
   last'.act = "UserSet" =>
     /\ \A n \in NS \ {last'.ns} : user'[n] = user[n]
-    /\ mod' = mod
+    /\ mod' = mod /\ denoms' = denoms
     /\ meta' \subseteq meta \cup {last'.ns}
 \* module parameters change only through the designated system realm
-ModuleParamsOnlyViaSysRealmA == mod' # mod => (last'.act = "SysSet" /\ last'.caller = "sys")
+ModuleParamsOnlyViaSysRealmA == (mod' # mod \/ denoms' # denoms) => (last'.act \in {"SysSet", "SysUpd"} /\ last'.caller = "sys")
 \* every stored module value passed its module's validation
 StoredValuesValid == \A m \in ModOK : mod[m] = "default" \/ ValidVal(mod[m])
 \* no stored user key is empty or contains the namespace separator
